@@ -263,3 +263,35 @@ def empty_readonly(case, d):
     except Exception as e:
         reopen = f'raised {type(e).__name__}: {e}'[:200]
     return dict(results=res, reopen=reopen)
+
+
+def stale_and_tidy(case, d):
+    """(i) a handle whose directory is re-created with another type / rank (overwrite=True): on THAT handle
+    readcodelanguages must still list exactly the languages readcode() gives code for;
+    (ii) a tidied-up directory (README.txt removed by the user): running the Python-family code changes
+    no file."""
+    path = os.path.join(d, 'x.darr')
+    first = np.arange(6, dtype=case['first'][0]).reshape(case['first'][1])
+    second = np.arange(6, dtype=case['second'][0]).reshape(case['second'][1])
+    a = darr.asarray(path, first, accessmode='r+')
+    out = dict(before=list(a.readcodelanguages))
+    darr.asarray(path, second, overwrite=True)
+    try:
+        listed = list(a.readcodelanguages)
+        offered = [l for l in sorted(readcodefunc.keys()) if a.readcode(l) is not None]
+        out['stale'] = dict(listed=sorted(listed), offered=sorted(offered))
+    except Exception as e:
+        out['stale'] = dict(error=f'{type(e).__name__}: {e}'[:200])
+    fresh = darr.Array(path)
+    out['fresh'] = dict(listed=sorted(fresh.readcodelanguages),
+                        offered=sorted(l for l in readcodefunc.keys() if fresh.readcode(l) is not None))
+    codes = {l: fresh.readcode(l) for l in ('darr', 'numpy', 'numpymemmap') if l in fresh.readcodelanguages}
+    del a, fresh
+    os.remove(os.path.join(path, 'README.txt'))
+    before = snapshot(path)
+    tidy = []
+    for lang, code in codes.items():
+        kind, detail = run_python_family(lang, code, path, path, second)
+        tidy.append(dict(lang=lang, kind=kind, detail=detail, unchanged=snapshot(path) == before))
+    out['tidy'] = tidy
+    return out
